@@ -410,3 +410,6 @@ func (w *W) Item(input, aux string) {
 	w.cur.Transitions++
 	w.Case(input, aux)
 }
+
+// Finish marks a hand-enumerated phase complete unless its budget expired.
+func (w *W) Finish() { w.cur.Complete = !w.expired }
